@@ -168,15 +168,16 @@ type WSeg struct {
 	Fields []string        // expected field list
 	Kind   model.Kind
 	// merges
-	Inputs   []*WSeg
-	Drops    []*roaring.Bitmap
-	DocNums  [][]uint64 // as reported by the merger
-	WantNums [][]uint64 // as the model expects
-	MergeRet int64
-	NewSize  uint64
-	WriteRet int64 // return value of the WriteTo that produced Bytes
-	exp      *model.Obs
-	dv       map[string]bool
+	Inputs    []*WSeg
+	Drops     []*roaring.Bitmap
+	DocNums   [][]uint64 // as reported by the merger
+	WantNums  [][]uint64 // as the model expects
+	MergeRet  int64
+	NewSize   uint64
+	WriteRet  int64 // return value of the WriteTo that produced Bytes
+	SizeAlone int   // Size() of the view a scenario shares between tasks, measured before they start
+	exp       *model.Obs
+	dv        map[string]bool
 }
 
 // Exp returns (and caches) the model's expectation for this segment.
@@ -317,7 +318,7 @@ func BuildWorldWith(impl *Impl, prop string, def *WorldDef, sched *Sched) (*Worl
 		sd := &def.Segs[i]
 		var ws *WSeg
 		var fail *Fail
-		if sd.Merge != nil && i > 0 && len(sd.Merge.In) > 0 {
+		if sd.Merge != nil && (i > 0 || len(sd.Merge.In) == 0) {
 			ws, fail = w.buildMerge(i, sd)
 		} else {
 			ws, fail = w.buildNew(i, sd)
@@ -335,8 +336,19 @@ func BuildWorldWith(impl *Impl, prop string, def *WorldDef, sched *Sched) (*Worl
 func (w *World) buildNew(i int, sd *SegDef) (*WSeg, *Fail) {
 	docs := ExpandBatch(sd, i)
 	ws := &WSeg{Idx: i, Def: sd, Kind: model.Built}
+	// doc-value fields of this batch: named so in the world and requested by
+	// at least one instance
+	batchDV := map[string]bool{}
 	for k := range docs {
-		ws.Docs = append(ws.Docs, model.SDoc{D: &docs[k], Norm: sd.Norm})
+		for j := range docs[k].Fields {
+			f := &docs[k].Fields[j]
+			if w.DV[f.Name] && !f.NoDV {
+				batchDV[f.Name] = true
+			}
+		}
+	}
+	for k := range docs {
+		ws.Docs = append(ws.Docs, model.SDoc{D: &docs[k], Norm: sd.Norm, DV: batchDV})
 	}
 	ws.Fields = model.BuiltFields(ws.Docs)
 	var seg segment.Segment
@@ -396,6 +408,9 @@ func MergeMode(sd *SegDef) uint32 {
 // ResolveInputs maps a merge definition's input indices onto earlier segments.
 func (w *World) ResolveInputs(i int, md *MergeDef) []*WSeg {
 	var ins []*WSeg
+	if i == 0 {
+		return nil
+	}
 	for _, x := range md.In {
 		if x < 0 {
 			x = -x
